@@ -4,6 +4,10 @@
 # the property against it and requires exit 1. Usage: sensitivity.sh [ID ...] (default: all)
 # Env: TIER=quick|thorough, JOBS=n parallel mutants (default 4)
 cd "$(dirname "$0")"
+# every scratch copy has its own path, so nothing it builds is ever reused: a build cache of its
+# own, removed at the end, keeps the user's cache from growing by ~200 MB per mutant
+export GOCACHE=$(mktemp -d /tmp/vsens-cache-XXXXXX)
+trap 'rm -rf "$GOCACHE"' EXIT
 ROOT=$(pwd)
 TIER=${TIER:-quick}
 ids=("$@")
